@@ -86,7 +86,7 @@ def _run_one(args: Tuple[str, str, int]) -> Dict[str, Any]:
         if rep.undecided and err is None:
             err = "undecided: " + "; ".join(rep.undecided[:2])
         return {"name": e.name, "status": "done", "rules": rules, "error": err,
-                "keys": [f.key for f in rep.findings][:4]}
+                "keys": [f.key for f in rep.findings]}
     finally:
         shutil.rmtree(tmp, ignore_errors=True)
 
@@ -112,7 +112,7 @@ def run(prop: str, repo_root: str, rep: Report) -> None:
         if r["status"] == "done":
             new_keys = [k for k in r.get("keys", []) if k not in base]
             if e.expect:
-                hit = e.expect in r["rules"] and bool(new_keys)
+                hit = any(k.startswith(e.expect + "|") for k in new_keys)
                 row["verdict"] = "reported" if hit else "MISSED"
                 if not hit:
                     bad.append(f"mutant {e.name} not reported by {e.expect} (got {r['rules']}, error={r['error']})")
@@ -121,6 +121,7 @@ def run(prop: str, repo_root: str, rep: Report) -> None:
                 row["verdict"] = "silent" if quiet else "FALSE-ALARM"
                 if not quiet:
                     bad.append(f"variant {e.name} is not silent: {r['rules']} {r['error']} {new_keys[:1]}")
+        row["keys"] = [k for k in row.get("keys", []) if k not in base][:3]
         table.append(row)
     rep.extra["selftest"] = {
         "mutants": sum(1 for t in table if t["kind"] == "mutant" and t["status"] == "done"),
